@@ -57,16 +57,25 @@ func gen(t *rapid.T) Case {
 			fresh++
 		case k <= 6:
 			if rapid.IntRange(0, 9).Draw(t, "advfirst") < 7 {
-				c.Steps = append(c.Steps, Step{Kind: "advance", AdvanceNs: rapid.Int64Range(1e6, 90e9).Draw(t, "adv2")})
+				c.Steps = append(c.Steps, Step{Kind: "advance", AdvanceNs: signed(t, rapid.Int64Range(1e6, 90e9).Draw(t, "adv2"))})
 			}
 			c.Steps = append(c.Steps, Step{Kind: "resubmit", Ref: rapid.IntRange(0, 7).Draw(t, "ref"), FlipRoot: rapid.Bool().Draw(t, "flip")})
 		case k <= 8:
-			c.Steps = append(c.Steps, Step{Kind: "advance", AdvanceNs: rapid.Int64Range(1, 90e9).Draw(t, "adv")})
+			c.Steps = append(c.Steps, Step{Kind: "advance", AdvanceNs: signed(t, rapid.Int64Range(1, 90e9).Draw(t, "adv"))})
 		default:
 			c.Steps = append(c.Steps, Step{Kind: "sequence", SeqN: rapid.IntRange(-1, 3).Draw(t, "seqn")})
 		}
 	}
 	return c
+}
+
+// signed makes one clock step in four go backwards: front ends of one log do not share a clock, and a
+// clock may be stepped back; "all clock values" includes instants before an earlier submission's.
+func signed(t *rapid.T, d int64) int64 {
+	if rapid.IntRange(0, 3).Draw(t, "backwards") == 0 {
+		return -d
+	}
+	return d
 }
 
 type addChainRsp struct {
@@ -213,6 +222,9 @@ func check(t *testing.T, c Case) (v harness.Verdict) {
 			if dupOf.ts != nowMs {
 				v.Class("duplicate-after-clock-change")
 			}
+			if dupOf.ts > nowMs {
+				v.Class("duplicate-at-earlier-clock")
+			}
 		}
 		// (5) request log
 		if len(inst.Spy.Events) != nEv+1 {
@@ -269,7 +281,12 @@ func check(t *testing.T, c Case) (v harness.Verdict) {
 			}
 			submit(i, f.built, chain, &f)
 		case "advance":
-			clock.Add(time.Duration(s.AdvanceNs))
+			if clock.Now().Add(time.Duration(s.AdvanceNs)).UnixNano() >= 0 {
+				clock.Add(time.Duration(s.AdvanceNs))
+				if s.AdvanceNs < 0 {
+					v.Class("clock-stepped-back")
+				}
+			}
 		case "sequence":
 			be.Sequence(s.SeqN, uint64(clock.Now().UnixNano()))
 		}
